@@ -14,6 +14,15 @@ use std::rc::Rc;
 use std::time::{Duration, SystemTime};
 
 const BASE_TIME: u64 = 1_600_000_000;
+/// More events than this in one invocation means n2 is looping without terminating.
+const EVENT_LIMIT: usize = 4_000;
+
+/// Events of the run in progress (serialized), shared with the watchdog thread.
+pub static CUR_EVENTS: std::sync::Mutex<Vec<String>> = std::sync::Mutex::new(Vec::new());
+/// Incremented at every hook call; the watchdog declares a hang when it stops moving
+/// while an invocation is in progress.
+pub static HEARTBEAT: std::sync::atomic::AtomicU64 = std::sync::atomic::AtomicU64::new(0);
+pub static IN_INVOCATION: std::sync::atomic::AtomicBool = std::sync::atomic::AtomicBool::new(false);
 
 /// Captures everything n2 prints on stdout (fd 1) into a file.
 pub struct StdoutCapture {
@@ -57,7 +66,7 @@ impl StdoutCapture {
 
 #[derive(Default)]
 struct World {
-    events: Vec<Value>,
+    inv_events: usize,
     clock: u64,
     /// effects per declared step of the manifest n2 is currently working with
     effs: Vec<StepEff>,
@@ -65,8 +74,9 @@ struct World {
     /// manifest name -> declared graph currently on disk
     manif: BTreeMap<String, Value>,
     inv: Invoke,
-    /// n2 build id -> command line of started, unfinished commands
-    running: BTreeMap<usize, String>,
+    /// (n2 build id, command line) of started, unreleased commands (a list: a step the
+    /// code starts twice is in it twice)
+    running: Vec<(usize, String)>,
     finished: Vec<usize>,
     decisions: Vec<(usize, usize)>,
     prefix: Vec<usize>,
@@ -80,7 +90,15 @@ struct World {
 
 impl World {
     fn ev(&mut self, v: Value) {
-        self.events.push(v);
+        HEARTBEAT.fetch_add(1, std::sync::atomic::Ordering::Relaxed);
+        CUR_EVENTS.lock().unwrap().push(v.to_string());
+        self.inv_events += 1;
+    }
+
+    /// Called from hooks: true when this invocation produced so many events that it is
+    /// considered to loop forever.
+    fn over_limit(&self) -> bool {
+        self.inv_events > EVENT_LIMIT
     }
 
     fn tick(&mut self) -> u64 {
@@ -259,14 +277,20 @@ impl verif::Hooks for H {
             .filter(|p| p.2 > 0 || p.3 > 0)
             .map(|p| json!([p.0, p.2, p.3]))
             .collect();
-        self.0.borrow_mut().ev(json!({"e":"set","id":id+1,"prev":prev,"new":new,
+        let mut w = self.0.borrow_mut();
+        w.ev(json!({"e":"set","id":id+1,"prev":prev,"new":new,
             "counts":counts.to_vec(),"pending":pending,"pools":pr}));
+        if w.over_limit() {
+            w.dead = Some("livelock".into());
+            drop(w);
+            verif::abandon();
+        }
     }
 
     fn runner_start(&mut self, b: BuildInfoLite) {
         let mut w = self.0.borrow_mut();
         let cmd = b.cmdline.clone().unwrap_or_default();
-        w.running.insert(b.id, cmd.clone());
+        w.running.push((b.id, cmd.clone()));
         let rsp = match &b.rspfile {
             Some((p, c)) => json!([p, c]),
             None => json!([]),
@@ -277,17 +301,22 @@ impl verif::Hooks for H {
     fn runner_wait(&mut self, running: usize) {
         let mut w = self.0.borrow_mut();
         w.wait_no += 1;
+        if w.over_limit() {
+            w.dead = Some("livelock".into());
+            drop(w);
+            verif::abandon();
+        }
         // Kill point?
         if let Some(kill) = w.inv.kill.clone() {
             if kill.at == w.wait_no {
                 let mut writes = Vec::new();
                 for s in &kill.writes {
-                    if w.running.contains_key(&(s - 1)) {
+                    if w.running.iter().any(|(id, _)| *id == s - 1) {
                         let (ws, _, _) = w.finish_effects(*s, "ok");
                         writes.extend(ws);
                     }
                 }
-                let run: Vec<usize> = w.running.keys().map(|k| k + 1).collect();
+                let run: Vec<usize> = w.running.iter().map(|(k, _)| k + 1).collect();
                 w.ev(json!({"e":"kill","wait":kill.at,"running":run,"writes":writes}));
                 w.dead = Some("killed".into());
                 drop(w);
@@ -303,6 +332,7 @@ impl verif::Hooks for H {
             .map(|(id, _)| *id)
             .collect();
         cands.sort();
+        cands.dedup();
         if cands.is_empty() {
             // Some task ended before reaching its command (e.g. response file error):
             // the real channel already holds its completion.
@@ -355,7 +385,12 @@ impl verif::Hooks for H {
             .get(&s.to_string())
             .cloned()
             .unwrap_or_else(|| "ok".to_string());
-        let cmd = w.running.get(&choice).cloned().unwrap_or_default();
+        let cmd = w
+            .running
+            .iter()
+            .find(|(id, _)| *id == choice)
+            .map(|(_, c)| c.clone())
+            .unwrap_or_default();
         // Observations made while the command "runs".
         let eff = w.effs.get(s - 1).cloned().unwrap_or_default();
         let dirs_ok = eff.outs.iter().all(|o| match Path::new(o).parent() {
@@ -364,10 +399,18 @@ impl verif::Hooks for H {
         });
         let (writes, output, notes) = w.finish_effects(s, &outcome);
         let run: Vec<usize> = cands.iter().map(|k| k + 1).collect();
-        w.ev(json!({"e":"finish","id":s,"out":outcome,"writes":writes,"reported":eff.reads,
-            "hasdeps": !eff.depfile.is_empty() || eff.msvc,
+        let hasdeps = !eff.depfile.is_empty() || eff.msvc;
+        let (reported, reads) = if hasdeps {
+            (eff.creads.clone(), eff.reads.clone())
+        } else {
+            (vec![], vec![])
+        };
+        w.ev(json!({"e":"finish","id":s,"out":outcome,"writes":writes,
+            "reported":reported,"reads":reads,"hasdeps":hasdeps,"shown":eff.output,
             "dirsok":dirs_ok,"notes":notes,"cands":run}));
-        w.running.remove(&choice);
+        if let Some(pos) = w.running.iter().position(|(id, _)| *id == choice) {
+            w.running.remove(pos);
+        }
         w.finished.push(choice);
         let termination = match outcome.as_str() {
             "ok" => CommandTermination::Success,
@@ -436,7 +479,14 @@ impl verif::Hooks for H {
     fn progress(&mut self, ev: ProgressEvent) {
         let mut w = self.0.borrow_mut();
         match ev {
-            ProgressEvent::Update(c) => w.ev(json!({"e":"pu","c":c.to_vec()})),
+            ProgressEvent::Update(c) => {
+                w.ev(json!({"e":"pu","c":c.to_vec()}));
+                if w.over_limit() {
+                    w.dead = Some("livelock".into());
+                    drop(w);
+                    verif::abandon();
+                }
+            }
             ProgressEvent::TaskStarted(id) => w.ev(json!({"e":"ps","id":id+1})),
             ProgressEvent::TaskOutput(..) => {}
             ProgressEvent::TaskFinished {
@@ -462,6 +512,54 @@ fn wait_registered(n: usize) -> Vec<String> {
     verif::wait_for_commands(n, Duration::from_millis(2000))
 }
 
+/// Splits n2's error text into a kind and its argument (pure tokenising of the message).
+pub fn classify_error(err: &str) -> (&'static str, String, Vec<String>) {
+    fn quoted(s: &str) -> String {
+        // Debug-formatted string: strip the quotes, undo the common escapes
+        let t = s.trim();
+        let t = t.strip_prefix('"').unwrap_or(t);
+        let t = t.strip_suffix('"').unwrap_or(t);
+        t.replace("\\\\", "\\").replace("\\\"", "\"")
+    }
+    if err.is_empty() {
+        return ("", String::new(), vec![]);
+    }
+    if let Some(rest) = err.strip_prefix("dependency cycle: ") {
+        let names: Vec<String> = rest.split(" -> ").map(|s| s.to_string()).collect();
+        return ("cycle", String::new(), names);
+    }
+    if let Some(rest) = err.strip_prefix("unknown path requested: ") {
+        return ("unknown_path", quoted(rest), vec![]);
+    }
+    if let Some(pos) = err.find(": unknown pool ") {
+        return ("unknown_pool", quoted(&err[pos + 15..]), vec![]);
+    }
+    if err.contains(": input ") && err.ends_with(" missing") {
+        let pos = err.find(": input ").unwrap();
+        let name = &err[pos + 8..err.len() - 8];
+        return ("missing_input", name.to_string(), vec![]);
+    }
+    if err.contains("but has no dependency path to it") {
+        return ("nodeppath", String::new(), vec![]);
+    }
+    if err.starts_with("parse error:") {
+        return ("parse", String::new(), vec![]);
+    }
+    if err.contains("is already an output at") {
+        return ("dupout", String::new(), vec![]);
+    }
+    if err.starts_with("load .n2_db:") {
+        return ("loaddb", String::new(), vec![]);
+    }
+    if err.starts_with("read ") {
+        return ("readfail", String::new(), vec![]);
+    }
+    if err.starts_with("unknown rule") {
+        return ("unknown_rule", String::new(), vec![]);
+    }
+    ("other", String::new(), vec![])
+}
+
 pub struct Engine {
     pub root: PathBuf,
     pub capture: StdoutCapture,
@@ -469,7 +567,9 @@ pub struct Engine {
 }
 
 pub struct RunResult {
-    pub events: Vec<Value>,
+    /// the run ended because n2 looped or blocked forever
+    pub stuck: bool,
+    pub events: Vec<String>,
     pub decisions: Vec<(usize, usize)>,
 }
 
@@ -503,6 +603,7 @@ impl Engine {
         let _ = std::fs::remove_dir_all(&dir);
         std::fs::create_dir_all(&dir).expect("scenario dir");
         std::env::set_current_dir(&dir).expect("chdir");
+        CUR_EVENTS.lock().unwrap().clear();
         let world = Rc::new(RefCell::new(World {
             versions: scn.versions.clone(),
             prefix: prefix.to_vec(),
@@ -576,7 +677,8 @@ impl Engine {
         let _ = std::env::set_current_dir(&self.root);
         let mut w = world.borrow_mut();
         RunResult {
-            events: std::mem::take(&mut w.events),
+            stuck: matches!(w.dead.as_deref(), Some("livelock")),
+            events: std::mem::take(&mut *CUR_EVENTS.lock().unwrap()),
             decisions: std::mem::take(&mut w.decisions),
         }
     }
@@ -585,6 +687,7 @@ impl Engine {
         {
             let mut w = world.borrow_mut();
             w.inv = inv.clone();
+            w.inv_events = 0;
             w.wait_no = 0;
             w.work_no = 0;
             w.running.clear();
@@ -601,9 +704,19 @@ impl Engine {
         verif::install(Box::new(H(world.clone())));
         verif::set_argv(inv.argv.clone());
         self.capture.begin();
+        IN_INVOCATION.store(true, std::sync::atomic::Ordering::SeqCst);
         let res = std::panic::catch_unwind(std::panic::AssertUnwindSafe(|| n2::run::run()));
+        IN_INVOCATION.store(false, std::sync::atomic::Ordering::SeqCst);
         let out = self.capture.end();
         verif::uninstall();
+        // Commands still in flight (n2 returned early or was abandoned): wait until their
+        // task threads have registered, then make them return, so that no thread of this
+        // invocation can register later and be mistaken for a command of the next one.
+        let inflight = world.borrow().running.len();
+        HEARTBEAT.fetch_add(1, std::sync::atomic::Ordering::Relaxed);
+        if inflight > 0 {
+            let _ = verif::wait_for_commands(inflight, Duration::from_millis(2000));
+        }
         verif::abort_commands();
         let mut w = world.borrow_mut();
         let mut exit: i64 = -1;
@@ -643,8 +756,9 @@ impl Engine {
                 warns.push(line.to_string());
             }
         }
-        w.ev(json!({"e":"end","exit":exit,"err":err,"panic":panic,"dead":dead,
-            "summary":summary,"n":n,"warns":warns}));
+        let (errk, errarg, cyc) = classify_error(&err);
+        w.ev(json!({"e":"end","exit":exit,"err":err,"errk":errk,"errarg":errarg,"cyc":cyc,
+            "panic":panic,"dead":dead,"summary":summary,"n":n,"warns":warns}));
     }
 
     /// Runs a scenario under every completion order (bounded), calling `sink` per run.
@@ -674,6 +788,10 @@ impl Engine {
             let r = self.run_once(scn, &run_id, &prefix);
             runs += 1;
             sink(&run_id, &r);
+            if r.stuck {
+                // one non-terminating run decides the scenario; further orders add nothing
+                return (runs, true);
+            }
             // next prefix in DFS order
             let mut d = r.decisions.clone();
             loop {
